@@ -11,6 +11,7 @@ func init() {
 	vpRegister("vpH_C13_reuse", vpH_C13_reuse)
 	vpRegister("vpH_C13_pool", vpH_C13_pool)
 	vpRegister("vpH_C13_mixed", vpH_C13_mixed)
+	vpRegister("vpH_C13_faultretry", vpH_C13_faultretry)
 }
 
 type vpLookup struct {
@@ -292,11 +293,15 @@ func vpH_C13_mixed() {
 	segs := []*Segment{seg, seg}
 	pick := func(tag string) vpLookup {
 		l := vpLookup{flags: 2, walk: 1}
-		switch vpChoice(tag+"-term", 3) {
+		switch vpChoice(tag+"-term", 5) {
 		case 0:
 			l.field, l.term = "a", "x"
 		case 1:
 			l.field, l.term = "b", "x"
+		case 3:
+			l.field, l.term = "nofield", "x" // unknown field
+		case 4:
+			l.field, l.term = "a", "absent"
 		default:
 			l.field, l.term = "_id", "d1"
 		}
@@ -366,4 +371,40 @@ func vpH_C13_mixed() {
 		vpAssert(vpU64sEq(rest, wantRest), "an iterator that was not handed over continues where it was")
 	}
 	vpReach("C13 mixed end")
+}
+
+// C13 with a transient storage fault: two file-backed segments of the same
+// shape (different symbolic stored values) read through the recycled visit
+// context; exactly one read of a visit of B fails, the visit is retried, and A
+// is read again: every successful visit returns its own document.
+func vpH_C13_faultretry() {
+	g := vpNewGen(0)
+	a := []*vpDoc{g.doc(4, 0), g.doc(5, 1)}
+	b := []*vpDoc{g.doc(4, 0), g.doc(5, 1)}
+	g.done()
+	sa, _ := vpLoadFile(vpPersist(vpBuild(a, 1025)))
+	sb, fb := vpLoadFile(vpPersist(vpBuild(b, 1025)))
+	ea, eb := vpBuildExpect(a, vpFieldNames(a)), vpBuildExpect(b, vpFieldNames(b))
+	vpPoolReuse(true)
+	vpVisitCheck("segment A", sa, 0, ea.stored[0], -1)
+	n := vpChoice("doc", 2)
+	fb.failOnce = true
+	fb.failFrom = fb.reads + vpChoice("failing-read", 4)
+	var got []vpXStored
+	err := sb.VisitStoredFields(uint64(n), func(field string, value []byte) bool {
+		got = append(got, vpXStored{field, append([]byte(nil), value...)})
+		return true
+	})
+	if fb.reads <= fb.failFrom {
+		fb.failFrom = -1 // the visit needed fewer reads: no fault was injected
+		vpAssert(err == nil, "fault-free visit succeeds")
+	} else {
+		vpReach("C13 transient fault injected")
+		vpAssert(err != nil || len(got) == 0 || len(got) == len(eb.stored[n]), "a visit with a failed read reports an error or delivers the document")
+	}
+	vpVisitCheck("segment B, retry", sb, uint64(n), eb.stored[n], -1)
+	vpVisitCheck("segment A again", sa, 1, ea.stored[1], -1)
+	vpVisitCheck("segment B again", sb, uint64(1-n), eb.stored[1-n], -1)
+	vpPoolReuse(false)
+	vpReach("C13 faultretry end")
 }
